@@ -110,18 +110,6 @@ def settle(timeout=0.5):
     while _EXECUTORS:
         ex = _EXECUTORS.pop()
         if id(ex) in owned:
-            # a kept client's own executor is not shut down, but transfers a FAILED command left running on it (a synchronous backend
-            # call cannot be cancelled) must have ended before the harness looks at the store: wait until every worker thread is idle
-            loop = R.PERSISTENT_LOOP
-            deadline = time.monotonic() + 10 * timeout
-            while time.monotonic() < deadline:
-                q, thr, sem = getattr(ex, '_work_queue', None), list(getattr(ex, '_threads', ())), getattr(ex, '_idle_semaphore', None)
-                if (q is None or q.empty()) and (sem is None or sem._value >= len(thr)):
-                    break
-                if loop is not None and not loop.is_closed() and not loop.is_running():
-                    loop.run_until_complete(asyncio.sleep(0.001))
-                else:
-                    time.sleep(0.002)
             rest.append(ex)
             continue
         ex.shutdown(wait=False, cancel_futures=True)
@@ -136,6 +124,22 @@ def settle(timeout=0.5):
         for t in threads:
             t.join(timeout)      # a thread parked for ever on a closed event loop never writes anything; do not wait for it
     _EXECUTORS.extend(rest)
+
+
+def drain(repo, limit=5.0):
+    """wait (≤ `limit` s) until every worker thread of the executors `repo` OWNS is idle: transfers a FAILED command left running on a kept
+    client's executor (a synchronous backend call cannot be cancelled) must have ended before the harness compares the store"""
+    loop = R.PERSISTENT_LOOP
+    deadline = time.monotonic() + limit
+    for ex in [v for v in vars(repo).values() if hasattr(v, '_work_queue') and hasattr(v, '_threads')]:
+        while time.monotonic() < deadline:
+            q, thr, sem = ex._work_queue, list(ex._threads), getattr(ex, '_idle_semaphore', None)
+            if q.empty() and (sem is None or sem._value >= len(thr)):
+                break
+            if loop is not None and not loop.is_closed() and not loop.is_running():
+                loop.run_until_complete(asyncio.sleep(0.001))
+            else:
+                time.sleep(0.002)
 
 
 def close_persistent_loop():
